@@ -1,5 +1,6 @@
 NP = "np_srvnts_h"
 PROP = dict(
+    extractors=['daemon_server_call_shape'],
     functions=[
         "ntp_proto::server::Server<FixedClock>::handle (two identically configured servers, 1024-byte buffer vs request-sized buffer)",
         "ntp_proto::packet::NtpPacket::{deserialize, timestamp_response, deny_response, nts_timestamp_response, serialize}",
